@@ -105,13 +105,13 @@ func (tree *Tree[T]) Name() string { return tree.name }
 //
 // methods 可以为空，表示采用 [AnyMethods] 中的值。
 func (tree *Tree[T]) Add(pattern string, h T, ms []types.Middleware[T], methods ...string) error {
-	if err := tree.checkAmbiguous(pattern); err != nil {
-		return err
-	}
-
 	if tree.locker != nil {
 		tree.locker.Lock()
 		defer tree.locker.Unlock()
+	}
+
+	if err := tree.checkAmbiguous(pattern); err != nil {
+		return err
 	}
 
 	n, err := tree.getNode(pattern)
@@ -216,12 +216,27 @@ func (tree *Tree[T]) getNode(pattern string) (*node[T], error) {
 }
 
 // 此方法主要用于将 locker 的使用范围减至最小。
-func (tree *Tree[T]) match(ctx *types.Context) *node[T] {
+//
+// 节点的 handlers 会被 Add 和 Remove 修改，所以对其的查找也必须在锁的范围之内。
+func (tree *Tree[T]) match(ctx *types.Context, method string) (n *node[T], h T, exists bool) {
 	if tree.locker != nil {
 		tree.locker.RLock()
 		defer tree.locker.RUnlock()
 	}
-	return tree.node.matchChildren(ctx)
+
+	if ctx.Path == "*" || ctx.Path == "" {
+		n = tree.node
+	} else {
+		n = tree.node.matchChildren(ctx)
+	}
+
+	if n == nil || n.size() == 0 {
+		return nil, h, false
+	}
+	if h, exists = n.handlers[method]; exists {
+		return n, h, true
+	}
+	return n, n.handlers[methodNotAllowed], false
 }
 
 // Handler 查找与参数匹配的处理对象
@@ -234,20 +249,11 @@ func (tree *Tree[T]) Handler(ctx *types.Context, method string) (types.Node, T, 
 		return tree.node, tree.trace, true
 	}
 
-	var node *node[T]
-	if ctx.Path == "*" || ctx.Path == "" {
-		node = tree.node
-	} else {
-		node = tree.match(ctx)
-	}
-
-	if node == nil || node.size() == 0 {
+	node, h, exists := tree.match(ctx, method)
+	if node == nil {
 		return nil, tree.notFound, false
 	}
-	if h, exists := node.handlers[method]; exists {
-		return node, h, true
-	}
-	return node, node.handlers[methodNotAllowed], false
+	return node, h, exists
 }
 
 // Routes 获取当前的所有路由项以及对应的请求方法
@@ -279,6 +285,11 @@ func (tree *Tree[T]) Find(pattern string) *node[T] { return tree.node.find(patte
 //
 // NOTE: 会检测 pattern 是否存在于 tree 中。
 func (tree *Tree[T]) URL(buf *errwrap.StringBuilder, pattern string, ps map[string]string) error {
+	if tree.locker != nil {
+		tree.locker.RLock()
+		defer tree.locker.RUnlock()
+	}
+
 	n := tree.Find(pattern)
 	if n == nil {
 		return fmt.Errorf("%s 并不是一条有效的注册路由项", pattern)
